@@ -9,6 +9,7 @@ import Golib.Gen.C18
 import Golib.Conf.FSLemmas
 import Golib.Conf.Reload
 import Golib.Conf.Observers
+import Golib.Conf.FSDurLemmas
 
 namespace C18Gen
 open Gen.C18 Conf
@@ -52,6 +53,15 @@ theorem no_self_deadlock :
 /-- D39: DefaultFileParser.Write stores the new content with exactly the call sequence
     `C18.crash_atomic` is about -/
 theorem write_sequence_atomic : writeSeq = atomicSeq ∧ writeSeqUnknown = [] := by decide
+
+/-- interpreted: the call sequence *as regenerated from the source*, run on the file-system models,
+    leaves the configuration path with the complete old or new content at every process-stop point
+    and after every power loss, for all contents -/
+theorem generated_sequence_crash_atomic (old new : Str) :
+    (∀ s ∈ crashStates new writeSeq ⟨some old, none⟩, visibleOK old new s) ∧
+    (∀ s ∈ dstates new writeSeq (DFS.init old), ∀ c ∈ outcomes s, c = old ∨ c = new) := by
+  rw [write_sequence_atomic.1]
+  exact ⟨atomicSeq_visible old new none, atomicSeq_durable old new⟩
 
 /-- D44: no properties.Must* call (their error handler terminates the process) -/
 theorem no_must_load : mustLoadCalls = [] := by decide
